@@ -43,6 +43,18 @@ REMOVE_SPEC = """requires wf(*old(self)),
                 && forall|k: int| 0 <= k < final(self).graph@.len() ==> (#[trigger] final(self).graph@[k]).id == old(self).graph@[src_idx(k, old(self).index@[*path] as int)].id
                         && final(self).graph@[k].depends_on@ == old(self).graph@[src_idx(k, old(self).index@[*path] as int)].depends_on@.remove(*path),"""
 
+RENAME_SPEC = """requires wf(*old(self)), !has_path(*old(self), new), new != *old_path,   // the new path is not registered yet
+        ensures wf(*final(self)), final(self).graph@.len() == old(self).graph@.len(),
+            // every node keeps its place; the old path is replaced by the new one as a node id and in every dependency set
+            forall|k: int| 0 <= k < final(self).graph@.len() ==> (#[trigger] final(self).graph@[k]).id == ren(old(self).graph@[k].id, *old_path, new)
+                && final(self).graph@[k].depends_on@ == ren_set(old(self).graph@[k].depends_on@, *old_path, new),"""
+
+RENAME_LOOP = """invariant verif_n <= self.graph@.len(), self.graph@.len() == old(self).graph@.len(), wf(*old(self)), !has_path(*old(self), new), new != *old_path,
+                self.index@ == (if old(self).index@.contains_key(*old_path) { old(self).index@.remove(*old_path).insert(new, old(self).index@[*old_path]) } else { old(self).index@ }),
+                forall|k: int| 0 <= k < self.graph@.len() ==> (#[trigger] self.graph@[k]).id == (if k < verif_n { ren(old(self).graph@[k].id, *old_path, new) } else { old(self).graph@[k].id })
+                    && self.graph@[k].depends_on@ == (if k < verif_n { ren_set(old(self).graph@[k].depends_on@, *old_path, new) } else { old(self).graph@[k].depends_on@ }),
+            decreases self.graph@.len() - verif_n,"""
+
 SHIFT_LOOP = """invariant verif_j <= verif_keys@.len(), verif_keys@.no_duplicates(),
                     forall|k: u64| #![trigger self.index@.contains_key(k)] #![trigger verif_keys@.contains(k)] self.index@.contains_key(k) <==> verif_keys@.contains(k),
                     self.graph@ == old(self).graph@.remove(%(i)s as int), %(i)s < old(self).graph@.len(), wf(*old(self)), old(self).graph@[%(i)s as int].id == *path,
@@ -181,7 +193,38 @@ def build(run):
         f.insert_at(r'let mut verif_n: usize = 0;', "        let ghost verif_mid = self.graph@;", where='before')
         f.loop_spec(1, RETAIN_LOOP)
         unit.add(f)
+    # ---- rename_path (+ vacuity probe)
+    for probe in (False, True):
+        f = Snippet(g.fn('rename_path', impl=r'ModuleGraph'), 'vacuity-probe ModuleGraph::rename_path' if probe else 'ModuleGraph::rename_path')
+        mono(f)
+        rules.strip_vis_attrs(f)
+        f.rw('R7', r'\bold\b', 'old_path', expect='+')   # `old` is a keyword of the specification language
+        # R11m: `for node in self.graph.iter_mut() { BODY(node) }` -> indexed loop; the node is taken out before and put back after BODY
+        mask = make_mask(f.text)
+        ml = re.search(r'for (\w+) in self\.graph\.iter_mut\(\) \{', mask)
+        if not ml:
+            raise Undecided("ModuleGraph::rename_path: the loop over self.graph.iter_mut() was not found")
+        N = ml.group(1)
+        ob = ml.end() - 1
+        cb = match_close(mask, ob)
+        body = re.sub(r'\b%s\b' % N, 'verif_node', f.text[ob + 1:cb])
+        new = ("let mut verif_n: usize = 0;\n        while verif_n < self.graph.len() {\n            let mut verif_node = w_take_node(&mut self.graph, verif_n);" + body +
+               "    w_put_node(&mut self.graph, verif_n, verif_node);\n            verif_n = verif_n + 1;\n        }")
+        f.replace_range('R11m', ml.start(), cb + 1, new, "for %s in self.graph.iter_mut() { BODY } -> indexed loop, the node taken out before and put back after the unchanged BODY" % N)
+        f.rw('R4', r'\bverif_node\.depends_on\.retain\(\|(\w+)\| \1 != old_path\);', 'w_set_retain_ne(&mut verif_node.depends_on, old_path);', expect='*')
+        if probe:
+            f.rename_fn('rename_path__vacuity_probe')
+            run.extra.setdefault('vacuity_probe_labels', []).append(f.label)
+        f.contract(RENAME_SPEC.split('ensures')[0] + 'ensures false,' if probe else RENAME_SPEC)
+        f.loop_spec(0, RENAME_LOOP)
+        f.insert_at(r'\bw_put_node\(', """            proof {
+                let s0 = old(self).graph@[verif_n as int].depends_on@;
+                if s0.contains(*old_path) { assert(s0.insert(new).remove(*old_path) =~= s0.remove(*old_path).insert(new)); } else { assert(s0.remove(*old_path) =~= s0); }
+            }""", where='before')
+        f.after_loop(0, "        proof { lemma_renamed(*old(self), *self, *old_path, new); }")
+        unit.add(f)
     unit.raw("}\n} // verus!\n")
+    run.sample({"function": "ModuleGraph::rename_path", "ensures": "for a new path that is not registered: the index and the vector agree again (the index entry moves to the new path - the defect fixed in 214d3101), every node keeps its place, the old path is replaced by the new one as node id and in every dependency set; terminates"})
     run.sample({"function": "ModuleGraph::remove", "ensures": "for every graph whose path index agrees with its node vector: afterwards they agree again (the positions behind the removed node are shifted by exactly one), the path is not registered, the other nodes stay in order and each lost exactly that path from its dependencies; no index out of bounds, no underflow; terminates"})
     run.sample({"function": "ModuleGraph::add_node_if_none / get_node", "ensures": "add: a registered path changes nothing, an unregistered one appends exactly one node without dependencies and indexes it at its position; get_node: the node the index points at has that path, None iff the path is not registered; the vector index cannot be out of bounds"})
     return unit
